@@ -102,10 +102,9 @@ func (e *vfEnd) state() string {
 	return fmt.Sprintf("%d,%d,%d,%d,%d,%d,%s", e.ch.ns, e.ch.nr, e.ch.cwnd, e.ch.ssthresh, len(e.ch.queue), infl, z)
 }
 
-// the dispatch rule of internal/l2tp/dispatch.go:72-90.  If the channel offers an
-// acknowledgement-only entry point for ZLBs it is used (that is how a repaired dispatcher
-// feeds them); today there is none and a ZLB goes through Recv like any other message,
-// its accept result being ignored because the message has no AVPs.
+// the dispatch rule of internal/l2tp/dispatch.go: a ZLB (no AVPs) only acknowledges (RecvZLB), every other
+// message goes through Recv and is handed to the protocol machine iff accepted.  (The type assertion keeps
+// the harness compiling against trees that predate RecvZLB; there a ZLB went through Recv.)
 func vfDispatch(e *vfEnd, p vfPkt, now time.Time) (handed bool) {
 	before := len(e.ch.queue)
 	defer func() {
